@@ -179,3 +179,265 @@ Qed.
 Definition anyeff : eff -> Prop := fun _ => True.
 Lemma Forall_anyeff l : Forall anyeff l.
 Proof. apply Forall_forall. intros; exact I. Qed.
+(* ------------------------------------------------------------------------------------ *)
+(** * 2. Association lists *)
+
+Section AssocFacts.
+  Context {K V : Type} (eqb : K -> K -> bool).
+  Implicit Types (l : list (K * V)) (k : K) (v : V).
+
+  (* every stored key matches itself and is matched by no earlier key: lookups by a stored
+     key find exactly that entry *)
+  Fixpoint keys_ok (l : list (K * V)) : Prop :=
+    match l with
+    | [] => True
+    | (k, _) :: r => eqb k k = true /\ (forall k', In k' (map fst r) -> eqb k k' = false) /\ keys_ok r
+    end.
+
+  Lemma aget_In l k v : aget eqb l k = Some v -> exists k', In (k', v) l /\ eqb k' k = true.
+  Proof.
+    induction l as [|[k0 v0] l IH]; cbn [aget]; [discriminate|].
+    destruct (eqb k0 k) eqn:Ek.
+    - intros [= <-]. exists k0. split; [left; reflexivity|exact Ek].
+    - intros H. destruct (IH H) as (k' & Hin & Hk). exists k'. split; [right; exact Hin|exact Hk].
+  Qed.
+
+  Lemma aget_None_notin l k : aget eqb l k = None -> forall k' v, In (k', v) l -> eqb k' k = false.
+  Proof.
+    induction l as [|[k0 v0] l IH]; cbn [aget]; [intros _ k' v []|].
+    destruct (eqb k0 k) eqn:Ek; [discriminate|].
+    intros H k' v [[= <- <-]|Hin]; [exact Ek|eauto].
+  Qed.
+
+  Lemma keys_ok_aget l k v : keys_ok l -> In (k, v) l -> aget eqb l k = Some v.
+  Proof.
+    induction l as [|[k0 v0] l IH]; cbn [keys_ok aget]; [intros _ []|].
+    intros (Hrefl & Hno & Hok) [[= -> ->]|Hin].
+    - rewrite Hrefl. reflexivity.
+    - rewrite (Hno k) by (apply in_map_iff; exists (k, v); auto). auto.
+  Qed.
+
+  Lemma keys_ok_functional l k v1 v2 : keys_ok l -> In (k, v1) l -> In (k, v2) l -> v1 = v2.
+  Proof.
+    intros Hok H1 H2. apply (keys_ok_aget _ _ _ Hok) in H1. apply (keys_ok_aget _ _ _ Hok) in H2. congruence.
+  Qed.
+
+  Lemma aset_same l k v : aget eqb l k = Some v -> aset eqb l k v = l.
+  Proof.
+    induction l as [|[k0 v0] l IH]; cbn [aget aset]; [discriminate|].
+    destruct (eqb k0 k); [intros [= ->]; reflexivity|]. intros H. rewrite IH; auto.
+  Qed.
+
+  Lemma aset_none l k v : aget eqb l k = None -> aset eqb l k v = l ++ [(k, v)].
+  Proof.
+    induction l as [|[k0 v0] l IH]; cbn [aget aset]; [reflexivity|].
+    destruct (eqb k0 k); [discriminate|]. intros H. rewrite IH; auto.
+  Qed.
+
+  Lemma aset_nonnil l k v : aset eqb l k v <> [].
+  Proof. destruct l as [|[k0 v0] l]; cbn [aset]; [discriminate|]. destruct (eqb k0 k); discriminate. Qed.
+
+  (* what an entry of the updated list can be *)
+  Lemma In_aset l k v k' v' :
+    In (k', v') (aset eqb l k v) ->
+    In (k', v') l \/
+    (v' = v /\ ((exists v0, In (k', v0) l /\ aget eqb l k = Some v0 /\ eqb k' k = true) \/
+                (k' = k /\ aget eqb l k = None))).
+  Proof.
+    induction l as [|[k0 v0] l IH]; cbn [aget aset].
+    - intros [[= <- <-]|[]]. right. split; [reflexivity|]. right. auto.
+    - destruct (eqb k0 k) eqn:Ek.
+      + intros [[= <- <-]|Hin]; [|left; right; exact Hin].
+        right. split; [reflexivity|]. left. exists v0. repeat split; auto. left; reflexivity.
+      + intros [[= <- <-]|Hin]; [left; left; reflexivity|].
+        destruct (IH Hin) as [H|(-> & [(v1 & H1 & H2 & H3)|(-> & H2)])].
+        * left; right; exact H.
+        * right. split; [reflexivity|]. left. exists v1. repeat split; auto. right; exact H1.
+        * right. split; [reflexivity|]. right. auto.
+  Qed.
+
+  Lemma In_aset_keys l k v k' : In k' (map fst (aset eqb l k v)) -> In k' (map fst l) \/ k' = k.
+  Proof.
+    intros H. apply in_map_iff in H as ([k1 v1] & <- & Hin). cbn [fst].
+    apply In_aset in Hin as [H|(-> & [(v0 & H1 & _)|(-> & _)])].
+    - left. apply in_map_iff. exists (k1, v1). auto.
+    - left. apply in_map_iff. exists (k1, v0). auto.
+    - right. reflexivity.
+  Qed.
+
+  (* entries whose key does not match survive an update *)
+  Lemma In_aset_other l k v k' v' : In (k', v') l -> eqb k' k = false -> In (k', v') (aset eqb l k v).
+  Proof.
+    induction l as [|[k0 v0] l IH]; cbn [aset]; [intros []|].
+    intros [[= -> ->]|Hin] Hk.
+    - rewrite Hk. left; reflexivity.
+    - destruct (eqb k0 k); [right; exact Hin|right; auto].
+  Qed.
+
+  Lemma In_aset_new l k v : exists k', In (k', v) (aset eqb l k v) /\ (k' = k \/ eqb k' k = true).
+  Proof.
+    induction l as [|[k0 v0] l IH]; cbn [aset].
+    - exists k. split; [left; reflexivity|left; reflexivity].
+    - destruct (eqb k0 k) eqn:Ek.
+      + exists k0. split; [left; reflexivity|right; exact Ek].
+      + destruct IH as (k' & H1 & H2). exists k'. split; [right; exact H1|exact H2].
+  Qed.
+
+  Lemma In_adel l k x : In x (adel eqb l k) -> In x l.
+  Proof.
+    induction l as [|[k0 v0] l IH]; cbn [adel]; [intros []|].
+    destruct (eqb k0 k); [intros H; right; exact H|]. intros [<-|H]; [left; reflexivity|right; auto].
+  Qed.
+
+  Lemma In_adel_keys l k k' : In k' (map fst (adel eqb l k)) -> In k' (map fst l).
+  Proof.
+    intros H. apply in_map_iff in H as (x & <- & Hin). apply in_map_iff. exists x. split; [reflexivity|].
+    eapply In_adel; eauto.
+  Qed.
+
+  Lemma In_adel_other l k k' v' : In (k', v') l -> eqb k' k = false -> In (k', v') (adel eqb l k).
+  Proof.
+    induction l as [|[k0 v0] l IH]; cbn [adel]; [intros []|].
+    intros [[= -> ->]|Hin] Hk.
+    - rewrite Hk. left; reflexivity.
+    - destruct (eqb k0 k); [exact Hin|right; auto].
+  Qed.
+
+  Lemma keys_ok_aset l k v : keys_ok l -> eqb k k = true -> keys_ok (aset eqb l k v).
+  Proof.
+    induction l as [|[k0 v0] l IH]; cbn [keys_ok aset].
+    - intros _ Hk. repeat split; auto. intros k' [].
+    - intros (Hrefl & Hno & Hok) Hk. destruct (eqb k0 k) eqn:Ek; cbn [keys_ok map fst].
+      + repeat split; auto.
+      + repeat split; auto. intros k' Hin. apply In_aset_keys in Hin as [Hin| ->]; auto.
+  Qed.
+
+  Lemma keys_ok_adel l k : keys_ok l -> keys_ok (adel eqb l k).
+  Proof.
+    induction l as [|[k0 v0] l IH]; cbn [keys_ok adel]; [auto|].
+    intros (Hrefl & Hno & Hok). destruct (eqb k0 k); [exact Hok|]. cbn [keys_ok].
+    repeat split; auto. intros k' Hin. apply Hno. eapply In_adel_keys; eauto.
+  Qed.
+
+  (* the entry removed / replaced is the one a lookup finds *)
+  Lemma keys_ok_adel_gone l k v : keys_ok l -> In (k, v) l -> forall v', ~ In (k, v') (adel eqb l k).
+  Proof.
+    induction l as [|[k0 v0] l IH]; cbn [keys_ok adel]; [intros _ []|].
+    intros (Hrefl & Hno & Hok) [[= -> ->]|Hin] v' Hin'.
+    - rewrite Hrefl in Hin'. specialize (Hno k). rewrite Hrefl in Hno.
+      assert (true = false); [|discriminate]. apply Hno. apply in_map_iff. exists (k, v'). auto.
+    - assert (Ek : eqb k0 k = false) by (apply Hno; apply in_map_iff; exists (k, v); auto).
+      rewrite Ek in Hin'. destruct Hin' as [[= -> ->]|Hin'].
+      + congruence.
+      + eapply IH; eauto.
+  Qed.
+
+  (* a lookup by k0 is unaffected by updating / deleting a key that no k0-matching entry matches *)
+  Lemma aget_aset_frame l k v k0 :
+    (forall k', eqb k' k = true -> eqb k' k0 = false) -> eqb k k0 = false ->
+    aget eqb (aset eqb l k v) k0 = aget eqb l k0.
+  Proof.
+    intros H1 H2. induction l as [|[k1 v1] l IH]; cbn [aget aset].
+    - rewrite H2. reflexivity.
+    - destruct (eqb k1 k) eqn:Ek; cbn [aget].
+      + rewrite (H1 _ Ek). reflexivity.
+      + destruct (eqb k1 k0); auto.
+  Qed.
+
+  Lemma aget_adel_frame l k k0 :
+    (forall k', eqb k' k = true -> eqb k' k0 = false) ->
+    aget eqb (adel eqb l k) k0 = aget eqb l k0.
+  Proof.
+    intros H1. induction l as [|[k1 v1] l IH]; cbn [aget adel]; [reflexivity|].
+    destruct (eqb k1 k) eqn:Ek; cbn [aget].
+    - rewrite (H1 _ Ek). reflexivity.
+    - destruct (eqb k1 k0); auto.
+  Qed.
+End AssocFacts.
+
+(* keys compared by an equality test that decides Leibniz equality (str_eqb, N.eqb) *)
+Section AssocExact.
+  Context {K V : Type} (eqb : K -> K -> bool).
+  Implicit Types (k : K) (v : V).
+  Hypothesis eqb_eq : forall a b, eqb a b = true <-> a = b.
+
+  Lemma eqb_refl' a : eqb a a = true.
+  Proof. apply eqb_eq. reflexivity. Qed.
+  Lemma eqb_neq a b : a <> b -> eqb a b = false.
+  Proof. intros H. destruct (eqb a b) eqn:E; [|reflexivity]. apply eqb_eq in E. contradiction. Qed.
+
+  Lemma xaget_In (l : list (K * V)) k v : aget eqb l k = Some v -> In (k, v) l.
+  Proof. intros H. apply aget_In in H as (k' & Hin & Hk). apply eqb_eq in Hk. subst. exact Hin. Qed.
+
+  Lemma xaget_None (l : list (K * V)) k : aget eqb l k = None <-> ~ In k (map fst l).
+  Proof.
+    split.
+    - intros H Hin. apply in_map_iff in Hin as ([k' v] & <- & Hin).
+      apply (aget_None_notin _ _ _ H) in Hin. cbn [fst] in Hin. rewrite eqb_refl' in Hin. discriminate.
+    - intros H. destruct (aget eqb l k) as [v|] eqn:E; [|reflexivity].
+      exfalso. apply H. apply xaget_In in E. apply in_map_iff. exists (k, v). auto.
+  Qed.
+
+  Lemma xaget_aset_eq (l : list (K * V)) k v : aget eqb (aset eqb l k v) k = Some v.
+  Proof.
+    induction l as [|[k0 v0] l IH]; cbn [aget aset].
+    - rewrite eqb_refl'. reflexivity.
+    - destruct (eqb k0 k) eqn:Ek; cbn [aget]; rewrite Ek; auto.
+  Qed.
+
+  Lemma xaget_aset_neq (l : list (K * V)) k v k0 : k0 <> k -> aget eqb (aset eqb l k v) k0 = aget eqb l k0.
+  Proof.
+    intros Hne. apply aget_aset_frame.
+    - intros k' Hk. apply eqb_eq in Hk. subst. apply eqb_neq. auto.
+    - apply eqb_neq. auto.
+  Qed.
+
+  Lemma xaget_adel_neq (l : list (K * V)) k k0 : k0 <> k -> aget eqb (adel eqb l k) k0 = aget eqb l k0.
+  Proof.
+    intros Hne. apply aget_adel_frame. intros k' Hk. apply eqb_eq in Hk. subst. apply eqb_neq. auto.
+  Qed.
+
+  Lemma xaget_adel_eq (l : list (K * V)) k : keys_ok eqb l -> aget eqb (adel eqb l k) k = None.
+  Proof.
+    intros Hok. destruct (aget eqb (adel eqb l k) k) as [v'|] eqn:E; [|reflexivity]. exfalso.
+    apply xaget_In in E. destruct (aget eqb l k) as [v|] eqn:E2.
+    - apply xaget_In in E2. eapply keys_ok_adel_gone; eauto.
+    - apply In_adel in E. apply xaget_None in E2. apply E2. apply in_map_iff. exists (k, v'). auto.
+  Qed.
+
+  Lemma xkeys_adel (l : list (K * V)) k k' : keys_ok eqb l -> In k' (map fst (adel eqb l k)) -> k' <> k /\ In k' (map fst l).
+  Proof.
+    intros Hok Hin. split; [|eapply In_adel_keys; eauto].
+    intros ->. apply (xaget_adel_eq l k) in Hok. apply xaget_None in Hok. contradiction.
+  Qed.
+
+  Lemma xIn_aset (l : list (K * V)) k v k' v' : keys_ok eqb l ->
+    In (k', v') (aset eqb l k v) -> (k' = k /\ v' = v) \/ (k' <> k /\ In (k', v') l).
+  Proof.
+    intros Hok Hin.
+    assert (Hok' : keys_ok eqb (aset eqb l k v)) by (apply keys_ok_aset; auto using eqb_refl').
+    apply (keys_ok_aget _ _ _ _ Hok') in Hin.
+    destruct (eqb k' k) eqn:Ek.
+    - apply eqb_eq in Ek. subst. rewrite xaget_aset_eq in Hin. left. split; congruence.
+    - assert (k' <> k) by (intros ->; rewrite eqb_refl' in Ek; discriminate).
+      rewrite xaget_aset_neq in Hin by auto. right. split; auto. apply xaget_In. auto.
+  Qed.
+
+  Lemma xkeys_aset (l : list (K * V)) k v k' : In k' (map fst (aset eqb l k v)) <-> In k' (map fst l) \/ k' = k.
+  Proof.
+    split; [apply In_aset_keys|].
+    intros [H| ->].
+    - apply in_map_iff in H as ([k1 v1] & <- & Hin). cbn [fst].
+      destruct (eqb k1 k) eqn:Ek.
+      + apply eqb_eq in Ek. subst. apply in_map_iff. exists (k, v). split; [reflexivity|].
+        apply xaget_In. apply xaget_aset_eq.
+      + apply in_map_iff. exists (k1, v1). split; [reflexivity|]. apply In_aset_other; auto.
+    - apply in_map_iff. exists (k, v). split; [reflexivity|]. apply xaget_In. apply xaget_aset_eq.
+  Qed.
+
+  Lemma xkeys_ok_aset (l : list (K * V)) k v : keys_ok eqb l -> keys_ok eqb (aset eqb l k v).
+  Proof. intros. apply keys_ok_aset; auto using eqb_refl'. Qed.
+
+  Lemma xIn_iff_aget (l : list (K * V)) k v : keys_ok eqb l -> (In (k, v) l <-> aget eqb l k = Some v).
+  Proof. intros Hok. split; [apply keys_ok_aget; auto|apply xaget_In]. Qed.
+End AssocExact.
